@@ -1,8 +1,96 @@
 """Single source of truth for MANIFEST.json (edited as rules are built)."""
-CLAIMED = {}
 
-_WIP = 'check under construction in this phase (rules not yet armed); see DESIGN.md for the planned clauses'
-NOT_APPLICABLE = {p: _WIP for p in ['C01', 'C02', 'C03', 'C04', 'C05', 'C06', 'C07', 'C08', 'C09', 'C10', 'C12', 'C13',
-                                     'C14', 'C15', 'C16', 'C17', 'C18', 'C19']}
-NOT_APPLICABLE['C11'] = ('numeric inverse/equality property over byte values; no structural clause beyond what the '
-                         'existing BCJ/delta round-trip tests already force (DESIGN.md section 5)')
+_BASE_NOTE = ('Trusted base: rustc nightly MIR (opt-level 0, dev profile) taken as the program; hand-written model of std '
+              'items; generic code analysed once, polymorphically. A pass means every instance of every listed rule holds '
+              'on all paths of the current tree; the behavioural property itself is NOT proved. ')
+
+
+def _c(tech, claim, notdecided):
+    return {'technique': tech, 'claim': claim, 'note': _BASE_NOTE + 'Not decided: ' + notdecided}
+
+
+CLAIMED = {
+    'C01': _c('static: value-set evaluation of the control byte + finite flag model extracted from MIR',
+              'Structural clauses of the LZMA2 chunk protocol decided for all 256 control values and all reachable reset-flag '
+              'states: reader classes (CTRL-SETS) and writer control bytes vs. the dictionary-reset flag in every reachable '
+              'flag state (FLAG-MODEL).',
+              'the LZMA symbol codec mirror (CODEC-MIRROR not built), match finder/window invariants, range coder carry, '
+              'optimal parser bookkeeping, 31-bit renormalisation: all depend on run-time values.'),
+    'C02': _c('static: typestate path rule (edge dominance) on the container writers',
+              'BLOCK-TYPESTATE: the XZ block / LZIP member closer is only reachable where a unit is provably open (opener call or '
+              'open edge of a test on the per-unit flag/counter), for every call site.',
+              'writer/reader table agreement (TABLE-INVERSE/LAYOUT-SEQ not built), CRC values, index arithmetic, LZIP dictionary '
+              'byte rounding.'),
+    'C03': _c('static: ordering (reachability) rule + finite flag model',
+              'UNPADDED-ORDER: the index unpadded size = counter - snapshot + check and the snapshot precedes every sink write of '
+              'the block; FLAG-MODEL: first chunk / every chunk after a pending reset carries the dictionary reset, no '
+              'control byte outside the reader-accepted classes.',
+              'acceptance by the reference implementation of everything else (needs the reference), format constants vs. the '
+              'specification (SPEC-CONST not built).'),
+    'C04': _c('static: error-propagation taint over Err edges (container readers)',
+              'ERR-SWALLOW-DEC: from the Err edge of every branch on a crate-error Result in the XZ/LZIP/LZMA readers the payload '
+              'reaches the Err return or an error field on every path (exceptions are checked path conditions).',
+              'that CRC/SHA detect a given corruption, that every parsed integrity field is compared (GUARD-COMPARE not built), '
+              'LZMA-level structural errors.'),
+    'C05': _c('static: error-propagation taint + I/O count classification at every Read::read / Write::write site',
+              'ERR-SWALLOW (whole crate) and IO-COUNT (W1 dropped write count, W2 transforming writer returning a partial count, '
+              'R1 read count compared for equality with a required length).',
+              'that truncation is *detected* by the end-of-stream consistency checks (value dependent).'),
+    'C06': _c('static: interval analysis with guard refinement across calls/fields; call-graph SCCs',
+              'ALLOC-TAINT (every decoder-reachable allocation size bounded), INT-OVF (overflow asserts in loop-free scalar '
+              'functions unreachable), NO-RECURSION (no self-recursion driven by input).',
+              'index bounds inside the LZ window and BCJ2 state machine, loop termination, checked BCJ address arithmetic on data '
+              'bytes (inside loops).'),
+    'C07': _c('static: dominance rule on impl Read::read + I/O count classification',
+              'ZERO-READ (empty-buffer guard dominates an inner read whose zero count mutates the reader) and IO-COUNT W2 '
+              '(transforming writers never report a partial count).',
+              'BCJWriter tail handling across write calls (known defect by reading, no rule built), LZ window buffering '
+              'independent of call sizes.'),
+    'C08': _c('static: ordering/guard rules on the four MT pipelines + control-byte value sets',
+              'SEQ-ORDER (hand-out only on seq == next, reorder map keyed by seq, one increment per hand-out/dispatch), CTRL-SETS '
+              '(MT cutter cuts exactly at the ST reader\'s dictionary-reset values, same classes and header lengths), '
+              'FRESH-CODEC, MT-TERMINATOR, ERR-SWALLOW-MT.',
+              'byte equality of outputs (needs C01), behaviour under interleavings beyond the ordering discipline.'),
+    'C09': _c('static: all-paths rule on worker CFGs + dominance of error checks',
+              'WORKER-NOTIFY (every path from a successful steal to an exit posts to the result channel), ERRCHK-BEFORE-BLOCK '
+              '(error store checked in the loop before every blocking recv), ERR-SWALLOW-MT.',
+              'progress of back-pressure loops, value relations between sequence counters.'),
+    'C10': _c('static: lock-set analysis, condvar predicate discipline, call-graph effects',
+              'CV-LOCK, LOCK-SCOPE, DROP-CLOSE, SPAWN-BOUND for the work queue and the four MT types.',
+              'termination of the codec work a worker does on one unit; std primitives behave as modelled.'),
+    'C12': _c('static: contradiction rule by value-set evaluation + control dependence',
+              'BYTE-CONTRA (no success exit dead by contradictory byte tests), MULTISTREAM-GUARD, STREAM-RESET.',
+              'alignment accounting across streams, LZIP member loop, MT backward scan arithmetic.'),
+    'C13': _c('static: call-graph effect analysis + data-flow from scheduling sources',
+              'DET-EFFECT (no nondeterminism source / uninitialised memory reachable from the writers), SCHED-FLOW, FRESH-CODEC, '
+              'SEQ-ORDER.',
+              'independence from the write partition inside the LZ window (numeric relation between positions).'),
+    'C14': _c('static: symbolic sign analysis of the normalisation kernels',
+              'NORM-NONNEG: scalar, AVX2 and SSE4.1 position-normalisation kernels all store max(p,o)-o (>= 0, 0 when p <= o).',
+              'equivalence of extend_match twins, asm vs portable decode_direct_bits, std/no_std error kinds (semantic '
+              'equivalence of numeric code needs execution or a solver).'),
+    'C15': _c('static: who-may-be-unsafe confinement + per-site bounds obligations on provenance',
+              'UNSAFE-CONFINE (unsafe only in four modules; zero in no_std without optimization), UNSAFE-GUARD (11 sites), '
+              'GUARD-FIELD-WRITERS, ASM-CLAMP.',
+              'the non-local precondition of extend_match (read_pos + current_len >= distance) which rests on match-finder/window '
+              'invariants.'),
+    'C16': _c('static: who-reads-how classification of every source access in the single-stream decoders',
+              'EXACT-READ (only read_exact of fixed/sliced lengths, 1-byte reads or pass-through) and MULTISTREAM-GUARD.',
+              'whether the range decoder\'s lazy normalisation pulls exactly as many bytes as the encoder flushed.'),
+    'C17': _c('static: unit inference {bytes, KiB} + dominance + interval analysis',
+              'KIB-UNITS over the estimator call tree, LIMIT-BEFORE-ALLOC, INT-OVF-EST.',
+              'estimate >= real peak heap and within a constant factor (needs allocation measurements).'),
+    'C18': _c('static: provenance of the slice handed to the current unit; dominance of size checks',
+              'UNIT-CLAMP (4 writers), EXPECTED-SIZE (LZMAWriter declared size).',
+              'exact unit counts for a given input; OPT-CLAMP (option raised to dict size) not built.'),
+    'C19': _c('static: interval analysis with public option fields ranging over their whole type',
+              'OPT-TAINT: every arithmetic assert fed by a public option value in the writer-constructor call tree is proven '
+              'unreachable or reported (one finding per function); the properties byte fits u8.',
+              'decodability of what in-range options produce (C01/C02); run-time state arithmetic inside encode loops.'),
+}
+
+NOT_APPLICABLE = {
+    'C11': ('numeric inverse/equality property over byte values (address conversion modulo 2^32, equality with the reference '
+            'filter output, BCJ2 reconstruction); no structural clause beyond what the existing BCJ/delta round-trip tests '
+            'already force, so a static rule would add no detection (DESIGN.md section 5)'),
+}
